@@ -554,6 +554,15 @@ def bv_to_lin(st, v):
             natw = natural_range(a).max()
             if top is not None and top == cells[0] and natw != INF and int(natw).bit_length() <= m:
                 return Lin.atom(("sext", a, m, -(1 << (m - 1)), (1 << (m - 1)) - 1))
+    # adjacent transmitted bit fields put back together by hand (`(hi & 3) << 8 | lo`): zero
+    # extension of one longer field of the same buffer
+    rest0 = cells[i:]
+    if rest0 and (not v.s or i > 0) and all(isinstance(c, tuple) and len(c) == 2 and isinstance(c[1], int) and isinstance(c[0], tuple)
+                                           and c[0] and c[0][0] == "bits" and len(c[0]) == 4 and isinstance(c[0][2], int) for c in rest0):
+        buf = rest0[0][0][1]
+        absolute = [c[0][2] + (c[0][3] - 1 - c[1]) for c in rest0]      # stream position of each cell's bit
+        if all(c[0][1] == buf and 0 <= c[1] < c[0][3] for c in rest0) and absolute == list(range(absolute[0], absolute[0] + len(rest0))):
+            return Lin.atom(("bits", buf, absolute[0], len(rest0)))
     # fall back: opaque value atom keyed by the cells
     rng = ty_range(w, v.s)
     return Lin.atom(("opqint", ("bv", cells), rng.min(), rng.max()))
@@ -1177,6 +1186,14 @@ class Interp:
         if rest.is_const():
             return Lin(qt, rest.c // c), Lin.const(rest.c % c)
         sa_ = rest.single_atom()
+        if sa_ and sa_[1] == 1 and sa_[2] == 0 and sa_[0][0] == "bits" and len(sa_[0]) == 4 and isinstance(sa_[0][2], int) \
+                and c & (c - 1) == 0 and c.bit_length() - 1 <= sa_[0][3]:
+            # a transmitted bit field split by hand (`b0 >> 2`, `b0 & 3`): its upper / lower bits
+            _, buf, pos, n = sa_[0]
+            k = c.bit_length() - 1
+            hi = Lin.atom(("bits", buf, pos, n - k)) if n - k > 0 else Lin.const(0)
+            lo = Lin.atom(("bits", buf, pos + n - k, k)) if k > 0 else Lin.const(0)
+            return Lin(qt, 0) + hi, lo
         if sa_ and sa_[1] > 0 and self.cong_ok(sa_[0]) and st.aset(sa_[0]).size() > 64:
             # c does not divide the coefficient: decide the residue class of the atom
             from math import gcd
